@@ -395,6 +395,24 @@ func c11Model(c *c11Case, v *fw.V) {
 func c11Cases(tier string, seed uint64) []fw.Case {
 	rng := fw.NewRng(seed, "C11")
 	var cs []fw.Case
+	kinds3 := []string{"signal", "message", "messageop"}
+	// an instance that has completed is started again: its catch events listen again and events reach them
+	for ki, kind := range kinds3 {
+		for _, sh := range []struct {
+			shape string
+			hist  []string
+		}{
+			{"seq", []string{"e:r1", "a:t1", "e:r2", "a:t2", "s:", "e:r1", "a:t1", "e:r2"}},
+			{"seq", []string{"e:r1", "a:t1", "e:r2", "a:t2", "s:", "e:r2", "e:r1", "e:r1"}},
+			{"behind", []string{"a:t0", "e:r1", "a:t1", "s:", "e:r1", "a:t0", "e:r1"}},
+			{"insub", []string{"a:t0", "e:r1", "a:t1", "a:t2", "s:", "a:t0", "e:r1", "a:t1"}},
+			{"par", []string{"e:r1", "e:r2", "a:t1", "a:t2", "s:", "e:r2", "a:t2", "e:r1"}},
+		} {
+			c := c11Case{Shape: sh.shape, Kind: kind, Hist: sh.hist, Hooks: ki == 1}
+			c.Name = fmt.Sprintf("restart/%s/%s/%s", sh.shape, kind, strings.Join(sh.hist, ","))
+			cs = append(cs, fw.MkCase("restart", &c))
+		}
+	}
 	// several processes of one definitions value inside a model.Model: all histories up to length 4 / 5
 	mlen := 4
 	if tier == "thorough" {
@@ -577,6 +595,7 @@ func c11Run(c *c11Case, env *fw.Env, v *fw.V) {
 		return
 	}
 	delivered := 0
+	restarted := false
 	for i, h := range c.Hist {
 		kind, arg, _ := strings.Cut(h, ":")
 		switch kind {
@@ -632,6 +651,22 @@ func c11Run(c *c11Case, env *fw.Env, v *fw.V) {
 				in.Go("ConsumeEvent", func() error { _, err := in.Proc.ConsumeEvent(ev); return err })
 				delivered++
 			}
+		case "s":
+			// the instance has completed and is started again: its catch events listen again
+			if !m.Complete() {
+				continue
+			}
+			call := in.Go("StartAll", func() error { return in.Proc.StartAll(in.Ctx) })
+			m.StartAll()
+			restarted = true
+			if !check(fmt.Sprintf("after step %d (%s)", i, h)) {
+				return
+			}
+			if d, err := call.Done(); !d || err != nil {
+				v.Violate("caller-blocked", "Process).StartAll", "second StartAll: returned=%v err=%v", d, err)
+				return
+			}
+			continue
 		case "a":
 			var req *drive.Req
 			for _, r := range in.Pending() {
@@ -662,6 +697,12 @@ func c11Run(c *c11Case, env *fw.Env, v *fw.V) {
 		}
 	}
 	n := in.Count("CeaseFlow", "")
+	if restarted {
+		// (completion is reported once per instance: what a second round does to it is C02's matter, not checked here)
+		v.Add("events-delivered", delivered)
+		v.Add("restarts", 1)
+		return
+	}
 	if m.Complete() && n != 1 {
 		v.Violate("not-complete", cls, "reference complete but %d cease-flow traces", n)
 		fail()
